@@ -113,8 +113,8 @@ func (i Item) Label() string                      { return "lb:" + i.Note }
 func (i Item) hid() int                           { return i.secret }
 `
 
-// V1Src lives at an import path whose last element looks like a major version and is the package name.
-const V1Src = `package v1
+// V2Src lives at an import path whose last element looks like a major version and is the package name.
+const V2Src = `package v2
 
 type Kind string
 
@@ -145,7 +145,7 @@ func FixedPackages(files tool.Files) {
 	files["ext/ext.go"] = ExtSrc
 	files["ext2/ext2.go"] = Ext2Src
 	files["deep/deep.go"] = DeepSrc
-	files["api/v1/v1.go"] = V1Src
+	files["api/v2/v2.go"] = V2Src
 	files["dot/dot.go"] = DotSrc
 }
 
@@ -209,12 +209,12 @@ var pairCatalogue = []FieldPair{
 	{"nested", "LocalItem", "deep.Item", "field"},
 	{"ptrstruct", "*LocalItem", "*deep.Item", "field"},
 	{"slice", "[]deep.Item", "[]deep.Item", "field"},
-	{"identical", "v1.Kind", "v1.Kind", "field"}, // import path .../api/v1, package v1
-	{"identical", "v1.Pod", "v1.Pod", "field"},
-	{"convertible", "v1.Kind", "string", "field"},
-	{"convertible", "string", "v1.Kind", "field"},
-	{"slice", "[]v1.Kind", "[]v1.Kind", "field"},
-	{"nested", "LocalPod", "v1.Pod", "field"},
+	{"identical", "v2.Kind", "v2.Kind", "field"}, // import path .../api/v2, package v2
+	{"identical", "v2.Pod", "v2.Pod", "field"},
+	{"convertible", "v2.Kind", "string", "field"},
+	{"convertible", "string", "v2.Kind", "field"},
+	{"slice", "[]v2.Kind", "[]v2.Kind", "field"},
+	{"nested", "LocalPod", "v2.Pod", "field"},
 	{"identical", "dot.Kind", "dot.Kind", "field"}, // dot-imported (or plainly imported) by the setup file
 	{"convertible", "dot.Kind", "int", "field"},
 	{"slice", "[]dot.Kind", "[]dot.Kind", "field"},
@@ -274,7 +274,7 @@ import (
 	"errors"
 	"strconv"
 
-	v1 "cvcase/api/v1"
+	v2 "cvcase/api/v2"
 	"cvcase/deep"
 	"cvcase/dot"
 	"cvcase/ext"
@@ -286,7 +286,7 @@ var _ = strconv.Itoa
 var _ ext.Status
 var _ ext2.Status
 var _ deep.Item
-var _ v1.Kind
+var _ v2.Kind
 var _ dot.Kind
 
 type MyInt int
@@ -458,6 +458,8 @@ type Options struct {
 	HookReuse       float64 // probability that a method names a hook declared for an earlier method's (different) types
 	CrossConv       float64 // probability that a :conv names a method generated from another converter interface
 	Clones          float64 // probability of a method converting a struct type to itself
+	CaseBias        bool    // prefer :case:off and explicit notations whose destination differs from a field only in case (C19)
+	UnreturnedErr   float64 // probability of a method without error result whose notations name an error-returning source (must be rejected)
 }
 
 // DefaultOptions is the general-purpose mix.
@@ -656,7 +658,7 @@ func (g *genState) genMethod(idx int) Method {
 	m.RetErr = g.rng.Intn(3) == 0 || g.opt.ErrorBias
 	if g.opt.Styles && g.rng.Intn(3) == 0 {
 		n := 1 + g.rng.Intn(3)
-		argTypes := []string{"int", "string", "*Leaf", "ext.Status", "[]string", "ext.Person", "Inner1", "*Lookup", "v1.Kind", "v1.Pod"}
+		argTypes := []string{"int", "string", "*Leaf", "ext.Status", "[]string", "ext.Person", "Inner1", "*Lookup", "v2.Kind", "v2.Pod"}
 		for i := 0; i < n; i++ {
 			a := Arg{Type: g.pick(argTypes)}
 			if m.SrcName != "" {
@@ -671,6 +673,10 @@ func (g *genState) genMethod(idx int) Method {
 	}
 	if g.opt.Toggles {
 		for _, t := range []string{"case", "getter", "stringer", "typecast"} {
+			if t == "case" && g.opt.CaseBias && g.rng.Intn(2) == 0 {
+				m.Notations = append(m.Notations, ":case:off")
+				continue
+			}
 			switch g.rng.Intn(5) {
 			case 0, 1:
 				m.Notations = append(m.Notations, ":"+t)
@@ -723,7 +729,11 @@ func (g *genState) genMethod(idx int) Method {
 			continue
 		}
 		path := f.Name
-		switch g.rng.Intn(10) {
+		pickCase := g.rng.Intn(10)
+		if g.opt.CaseBias && g.rng.Intn(3) == 0 {
+			pickCase = 7
+		}
+		switch pickCase {
 		case 9:
 			// converter shapes at the edge of what can be written as Go: a pointer parameter fed from a call or a
 			// conversion, a source or a converter that also yields an error below a conversion / String() call
@@ -807,7 +817,7 @@ func (g *genState) genMethod(idx int) Method {
 			}
 			m.Features = append(m.Features, "nested-notation")
 		case 7:
-			if g.rng.Intn(2) == 0 {
+			if g.rng.Intn(2) == 0 || g.opt.CaseBias {
 				// destinations of :map/:conv/:literal compare case-sensitively whatever the case rule
 				v := caseVariant(g.rng, path)
 				switch g.rng.Intn(3) {
@@ -829,7 +839,36 @@ func (g *genState) genMethod(idx int) Method {
 			m.Features = append(m.Features, "duplicate-notation")
 		}
 	}
-	if g.opt.WellFormed {
+	unreturned := false
+	if g.opt.UnreturnedErr > 0 && g.rng.Float64() < g.opt.UnreturnedErr && len(fields) > 0 {
+		// an error-returning getter on an additional argument (or on the source) in a method without
+		// error result: the tool must reject the method
+		m.Args = []Arg{{Type: "*Lookup"}}
+		if m.SrcName != "" {
+			m.Args[0].Name = "lk"
+		}
+		f := fields[g.rng.Intn(len(fields))]
+		var keep []string
+		for _, n := range m.Notations {
+			if !strings.HasPrefix(n, ":reverse") {
+				keep = append(keep, n)
+			}
+		}
+		m.Notations = keep
+		switch g.rng.Intn(3) {
+		case 0:
+			m.Notations = append(m.Notations, ":map $2.Code() "+f.Name)
+		case 1:
+			m.Notations = append(m.Notations, ":map Risky() "+f.Name)
+		default:
+			m.Notations = append(m.Notations, ":conv localConvErr3 SpareInt "+f.Name)
+		}
+		m.RetErr = false
+		unreturned = true
+		m.Features = append(m.Features, "error-source-without-error-result")
+		g.c.Features["must-reject:error-source-without-error-result"]++
+	}
+	if g.opt.WellFormed && !unreturned {
 		// an error-capable source needs an error result (anything else is rightly rejected)
 		risky := false
 		for _, f := range fields {
@@ -1142,7 +1181,7 @@ func renderSetup(rng *rand.Rand, c *Case, opt Options) string {
 		c.Features["package-doc"]++
 	}
 	sb.WriteString("package pk\n\n")
-	sb.WriteString("import (\n\t\"strconv\"\n\n\t\"cvcase/api/v1\"\n")
+	sb.WriteString("import (\n\t\"strconv\"\n\n\t\"cvcase/api/v2\"\n")
 	if c.DotImport {
 		sb.WriteString("\t. \"cvcase/dot\"\n")
 		c.Features["dot-import"]++
@@ -1158,7 +1197,7 @@ func renderSetup(rng *rand.Rand, c *Case, opt Options) string {
 		sb.WriteString("\t\"cvcase/ext2\"\n")
 	}
 	sb.WriteString(")\n\n")
-	sb.WriteString("var _ = strconv.Itoa\nvar _ ext.Status\nvar _ v1.Kind\n")
+	sb.WriteString("var _ = strconv.Itoa\nvar _ ext.Status\nvar _ v2.Kind\n")
 	if c.DotImport {
 		sb.WriteString("var _ = DotConv\n")
 	} else {
